@@ -15,6 +15,7 @@ Only property theorems live here; helper lemmas are in `Lemmas/Process.lean`.
 -/
 import PdfVerif.Lemmas.Process
 import PdfVerif.Lemmas.ProcGlobals
+import PdfVerif.Lemmas.ProcObjCache
 
 namespace PdfVerif.Props.C12
 open PdfVerif PdfVerif.Process
@@ -455,5 +456,42 @@ example : (G0 [] []).colorspaces.length = 9 ∧ (G0 [] []).colorspaces.head? = s
   decide
 
 end Globals
+
+/-! ## Round 6: `PDFDocument.getobj` and its cache as a refinement of the pure function (bytes, objid) ↦ object,
+with mutable containers (`Model/ProcObjCache.lean`) -/
+
+section ObjCacheSection
+open PdfVerif.ObjCache
+
+/-- the object cache refines the pure parse function: after ANY history of callers that read or copy before
+they change anything (pdfminer's own discipline), with caching on or off, `getobj n` hands out a value
+equal to a fresh parse of object `n` -/
+theorem C12_getobj_refines_parse (parse : Nat → Option (List Nat)) (caching : Bool) (hist : List ObjCache.Op)
+    (h : ∀ op ∈ hist, op.inPlace = false) (n : Nat) :
+    (ObjCache.step parse caching (ObjCache.run parse caching St.init hist) (.get n)).2 = parse n :=
+  getobj_value caching n (run_inv caching hist h (inv_init parse))
+
+/-- without the cache (`caching=False`) that holds for EVERY history, in-place changes by callers included:
+every `getobj` is a fresh parse -/
+theorem C12_getobj_nocache_pure (parse : Nat → Option (List Nat)) (hist : List ObjCache.Op) (n : Nat) :
+    (ObjCache.step parse false (ObjCache.run parse false St.init hist) (.get n)).2 = parse n :=
+  getobj_value false n (inv_of_nocache (run_nocache hist rfl))
+
+/-- proved counter-example: `getobj` returns the cached container itself, NOT a copy — a caller that changes it
+in place changes what every later `getobj` of that object returns (with the cache on; off, it is fresh again).
+pdfminer's extraction code never does this (`cache_inv` on the implementation, checked at every close); user code
+calling `doc.getobj` could. -/
+theorem getobj_alias_cex :
+    let parse : Nat → Option (List Nat) := fun n => if n = 5 then some [5] else none
+    ObjCache.outputs parse true St.init [.get 5, .mutInPlace 5 99, .get 5] = [some [5], some [5], some [5, 99]] ∧
+    ObjCache.outputs parse false St.init [.get 5, .mutInPlace 5 99, .get 5] = [some [5], some [5], some [5]] ∧
+    ObjCache.outputs parse true St.init [.get 5, .copyMut 5 99, .get 5] = [some [5], some [5], some [5]] := by
+  decide
+
+/-- non-vacuity: the cache is really used (object 5 is parsed once: one heap cell for two reads, plus the copy) -/
+example : ObjCache.run (fun n => if n = 5 then some [5] else none) true St.init [.get 5, .copyMut 5 7, .get 5, .get 6] =
+    ⟨[[5], [5, 7]], [(5, 0)]⟩ := by decide
+
+end ObjCacheSection
 
 end PdfVerif.Props.C12
